@@ -217,6 +217,9 @@ def run(chk):
     rng = np.random.default_rng(chk.seed)
     warnings.filterwarnings("ignore")
     chk.theorems()
+    for r in lib.check_theorems("C08Mx"):      # tier 2 (mathcomp) theorems live in a file of their own
+        chk.oblige("theorem", r["name"], r["ok"], r.get("error", "") or ("axioms: " + (", ".join(r["axioms"]) or "none")))
+        chk.extra.setdefault("theorem_axioms", {})[r["name"]] = r["axioms"]
     chk.trusted += [
         "Coq 8.16.1 kernel + vm_compute; Coq-Interval (BigZ floats, 80 bits) for the enclosure of 1/2 ln ratio",
         "Model/Gauss.v tied to the implementation by correspondence only (no translator on these anchors)",
